@@ -257,6 +257,7 @@ def judge(rep: report.Report, mode: str, normal: Dict[str, Any], opt: Dict[str, 
         r1, r2 = regions(paths), regions(paths2)
         same = set(r1) == set(r2)
         witness = None
+        fragile = False
         if same:
             for k in r1:
                 c1 = z3.Or(*[parse(p[1]) for p in r1[k]])
@@ -278,6 +279,13 @@ def judge(rep: report.Report, mode: str, normal: Dict[str, Any], opt: Dict[str, 
                     st, mdl = P.check(z3.Xor(t1, t2))
                     if st != "unsat":
                         same, witness = False, mdl
+                        # an exact equality of floats rarely survives rounding the model: prefer
+                        # the witness at zero, which is exact in every representation
+                        st0, mdl0 = P.check(z3.Xor(t1, t2), X == 0, Y == 0)
+                        if st0 == "sat":
+                            witness = mdl0
+                        else:
+                            fragile = True
         if same:
             rep.ob("unsat", f"{name}:same-under-O", key)
         else:
@@ -287,7 +295,9 @@ def judge(rep: report.Report, mode: str, normal: Dict[str, Any], opt: Dict[str, 
             rep.violation(f"C07:optimize-differs:{lab}:{op}",
                           f"{op} on {lab} behaves differently under python -O "
                           f"({sorted(r1)} vs {sorted(r2)})",
-                          replay_body(op, cu, cv, prelude, xv or 1.0, yv or 1.0))
+                          replay_body(op, cu, cv, prelude, xv if witness is not None else 1.0,
+                                      yv if witness is not None else 1.0),
+                          soft=fragile)
     rep.merge_stats(queries=normal["queries"] + opt["queries"] + P.asked,
                     solver_s=normal["solver_s"] + opt["solver_s"] + P.solver_s,
                     paths=normal["paths"] + opt["paths"])
